@@ -34,6 +34,27 @@ Theorem C02_hw_within_committed : forall c r, Inv c -> hw_of c r + 1 <= Z.of_nat
 Proof. exact hw_is_committed. Qed.
 Print Assumptions C02_hw_within_committed.
 
+(* Read strictly -- both replicas HOLD a message at the offset, and the same one: so it is for the
+   replicas that can be elected (the in-sync ones and the leader), at every offset at or below both
+   of their HWs.  A replica outside the in-sync set that is catching up takes the leader's HW from
+   every replication response, also from one that brings it only part of the way: its HW can lie
+   beyond its own log end (last statement; the real follower does the same, the tie compares every
+   replica's HW after every step).  It holds nothing different there, serves no reader and cannot
+   be elected before it has caught up. *)
+Theorem C02_electable_replicas_identical_below_both_hws : forall c r1 r2 o, Inv c ->
+  In r1 (c_isr c) \/ r1 = c_leader c -> In r2 (c_isr c) \/ r2 = c_leader c ->
+  Z.of_nat o <= hw_of c r1 -> Z.of_nat o <= hw_of c r2 ->
+  exists e, nth_error (log_of c r1) o = Some e /\ nth_error (log_of c r2) o = Some e.
+Proof. exact electable_identical_below_both_hws. Qed.
+Print Assumptions C02_electable_replicas_identical_below_both_hws.
+
+Theorem C02_lagging_replica_hw_beyond_its_log :
+  let c := run true (init_cluster [0; 1; 2]%N 0%N 4%N 1)
+             [KPublish 0; KPublish 1; KPublish 2; KFetch 1 3; KFetch 1 0; KShrink 2; KFetch 2 1]%N in
+  hw_of c 2%N = 2 /\ length (log_of c 2%N) = 1%nat /\ ~ In 2%N (c_isr c) /\ hw_of c 0%N = 2.
+Proof. exact lagging_replica_hw_beyond_its_log. Qed.
+Print Assumptions C02_lagging_replica_hw_beyond_its_log.
+
 (* and what is committed stays committed, at the same offsets, whatever happens next. *)
 Theorem C02_committed_survives : forall xs c, Inv c -> prefix (c_committed c) (c_committed (run true c xs)).
 Proof. exact committed_survives. Qed.
